@@ -169,15 +169,11 @@ func dateFromGoDay(day Time.Weekday) int {
 
 // newDateTime returns the epoch of date contained in argumentList for location.
 func newDateTime(argumentList []Value, location *Time.Location) float64 {
-	pick := func(index int, default_ float64) (float64, bool) {
+	pick := func(index int, default_ float64) float64 {
 		if index >= len(argumentList) {
-			return default_, false
+			return default_
 		}
-		value := argumentList[index].float64()
-		if math.IsNaN(value) || math.IsInf(value, 0) {
-			return 0, true
-		}
-		return value, false
+		return argumentList[index].float64()
 	}
 
 	switch len(argumentList) {
@@ -193,28 +189,19 @@ func newDateTime(argumentList []Value, location *Time.Location) float64 {
 
 		return value.float64()
 	default: // 2-argument, 3-argument, ...
-		var year, month, day, hour, minute, second, millisecond float64
-		var invalid bool
-		if year, invalid = pick(0, 1900.0); invalid {
-			return math.NaN()
-		}
-		if month, invalid = pick(1, 0.0); invalid {
-			return math.NaN()
-		}
-		if day, invalid = pick(2, 1.0); invalid {
-			return math.NaN()
-		}
-		if hour, invalid = pick(3, 0.0); invalid {
-			return math.NaN()
-		}
-		if minute, invalid = pick(4, 0.0); invalid {
-			return math.NaN()
-		}
-		if second, invalid = pick(5, 0.0); invalid {
-			return math.NaN()
-		}
-		if millisecond, invalid = pick(6, 0.0); invalid {
-			return math.NaN()
+		// Every supplied argument is converted, in order, before any of them
+		// is examined (15.9.3.1 and 15.9.4.3 steps 1-7).
+		year := pick(0, 1900.0)
+		month := pick(1, 0.0)
+		day := pick(2, 1.0)
+		hour := pick(3, 0.0)
+		minute := pick(4, 0.0)
+		second := pick(5, 0.0)
+		millisecond := pick(6, 0.0)
+		for _, field := range []float64{year, month, day, hour, minute, second, millisecond} {
+			if math.IsNaN(field) || math.IsInf(field, 0) {
+				return math.NaN()
+			}
 		}
 
 		if integer := math.Trunc(year); integer >= 0 && integer <= 99 {
